@@ -596,13 +596,24 @@ class Ruby(ContentElement):
     if self.has_children():
       raise RuntimeError("Remove all ruby children before adding more.")
 
+    children = list(children)
+
     ts = [type(x) for x in children]
 
     if ts not in [[Rb, Rt], [Rb, Rp, Rt, Rp], [Rbc, Rtc], [Rbc, Rtc, Rtc]]:
       raise ValueError("Children of ruby do not conform to requirements")
 
-    for child in children:
-      super().push_child(child)
+    pushed = []
+
+    try:
+      for child in children:
+        super().push_child(child)
+        pushed.append(child)
+    except Exception:
+      # a child that cannot be pushed must not leave the ruby with part of a pattern
+      for child in pushed:
+        super().remove_child(child)
+      raise
 
   def remove_children(self):
     '''Remove all children of the element.'''
@@ -755,8 +766,17 @@ class Rtc(ContentElement):
     if self.has_children():
       raise RuntimeError("Remove all rtc children before adding more.")
 
-    for child in children:
-      super().push_child(child)
+    pushed = []
+
+    try:
+      for child in children:
+        super().push_child(child)
+        pushed.append(child)
+    except Exception:
+      # a child that cannot be pushed must not leave the rtc with part of a pattern
+      for child in pushed:
+        super().remove_child(child)
+      raise
 
   def remove_children(self):
 
